@@ -64,7 +64,11 @@ type Exec struct {
 	info     *types.Info
 	opts     *Options
 	allocs   map[string]*ssa.Alloc
-	nameAnchor map[ssa.Instruction]string
+	indexed   map[*ssa.Function]bool
+	localName map[ssa.Instruction]string         // callee name of a call instruction
+	localOrd  map[ssa.Instruction]int            // its flattened per-name ordinal inside its own function
+	before    map[ssa.Instruction]map[string]int // flattened per-name call counts before a call instruction
+	ninlined  int
 }
 
 // calleeShortName: the method or function name of a call (for anchors that survive unrelated edits)
@@ -111,43 +115,10 @@ func newExec(p *Program, fn *ssa.Function, con *Contract, opts *Options) *Exec {
 		ex.maxPaths = 3000
 	}
 	ex.findLoops()
-	counts := map[string]int{}
-	for _, b := range fn.Blocks {
-		for _, in := range b.Instrs {
-			k := fmt.Sprintf("%T", in)
-			if c, ok := in.(*ssa.Call); ok {
-				if bi, ok := c.Call.Value.(*ssa.Builtin); ok {
-					k = "builtin:" + bi.Name()
-				}
-			}
-			if u, ok := in.(*ssa.UnOp); ok {
-				k = "unop:" + u.Op.String()
-			}
-			if bo, ok := in.(*ssa.BinOp); ok {
-				k = "binop:" + bo.Op.String()
-			}
-			counts[k]++
-			ex.ordinal[in] = counts[k]
-			if c, ok := in.(*ssa.Call); ok {
-				if _, isBuiltin := c.Call.Value.(*ssa.Builtin); !isBuiltin {
-					// name-based anchor: the k-th call (in SSA order) of a callee with this name
-					nm := calleeShortName(c)
-					if nm != "" {
-						counts["name:"+nm]++
-						if ex.nameAnchor == nil {
-							ex.nameAnchor = map[ssa.Instruction]string{}
-						}
-						ex.nameAnchor[in] = fmt.Sprintf("call:%s#%d", nm, counts["name:"+nm])
-					}
-				}
-			}
-			if a, ok := in.(*ssa.Alloc); ok && a.Comment != "" {
-				if _, dup := ex.allocs[a.Comment]; !dup {
-					ex.allocs[a.Comment] = a
-				}
-			}
-		}
-	}
+	ex.localName = map[ssa.Instruction]string{}
+	ex.localOrd = map[ssa.Instruction]int{}
+	ex.before = map[ssa.Instruction]map[string]int{}
+	ex.indexFunction(fn, true, 0)
 	return ex
 }
 
@@ -204,6 +175,9 @@ func (ex *Exec) findLoops() {
 
 func (st *State) check(name, kind string, t Term, desc string, props []string, pos token.Pos) {
 	ex := st.ex
+	if st.inl != nil {
+		name = st.inl.prefix + name
+	}
 	o := &Obl{Name: ex.key + "/" + name, Kind: kind, Desc: desc, Func: ex.key, Path: ex.cur.ID, Props: props, Term: t.S}
 	if !pos.IsValid() && ex.fn != nil {
 		pos = ex.fn.Pos() // e.g. a compiler-generated return: point at the function
@@ -532,9 +506,6 @@ func (ex *Exec) run() (err error) {
 					} else {
 						have[fmt.Sprintf("call#%d", ex.ordinal[in])] = true
 					}
-					if a := ex.nameAnchor[in]; a != "" {
-						have[a] = true
-					}
 				case *ssa.Store:
 					have[fmt.Sprintf("store#%d", ex.ordinal[in])] = true
 				case *ssa.MapUpdate:
@@ -542,6 +513,7 @@ func (ex *Exec) run() (err error) {
 				}
 			}
 		}
+		ex.anchorsOf(fn, map[string]int{}, 0, have)
 		for _, c := range ex.cons[:ex.ownCons] {
 			if c.Kind == "interface" || c.Kind == "functype" {
 				continue
@@ -650,6 +622,11 @@ func (ex *Exec) bindLets(c *Contract, e *Env) {
 }
 
 func (ex *Exec) walk(st *State, b *ssa.BasicBlock, pred *ssa.BasicBlock) {
+	ex.walkFrom(st, b, pred, 0)
+}
+
+// walkFrom: start > 0 resumes block b after an inlined call (the instruction at start-1)
+func (ex *Exec) walkFrom(st *State, b *ssa.BasicBlock, pred *ssa.BasicBlock, start int) {
 	for {
 		st.trail = append(st.trail, fmt.Sprintf("%d", b.Index))
 		st.sc.comment("block %d (%s)", b.Index, b.Comment)
@@ -661,8 +638,9 @@ func (ex *Exec) walk(st *State, b *ssa.BasicBlock, pred *ssa.BasicBlock) {
 				}
 			}
 		}
-		startInstr := 0
-		if lp, ok := ex.loops[b]; ok {
+		startInstr := start
+		start = 0
+		if lp, ok := ex.loops[b]; ok && startInstr == 0 {
 			if !ex.atLoopHead(st, lp, predIdx) {
 				return
 			}
@@ -674,8 +652,15 @@ func (ex *Exec) walk(st *State, b *ssa.BasicBlock, pred *ssa.BasicBlock) {
 			}
 		}
 		var next *ssa.BasicBlock
-		for _, in := range b.Instrs[startInstr:] {
+		for off, in := range b.Instrs[startInstr:] {
 			switch t := in.(type) {
+			case *ssa.Call:
+				if g := ex.inlinable(t); g != nil && g != ex.fn && !st.inlining(g) && (st.inl == nil || st.inl.depth < maxInlineDepth) {
+					ex.enterInline(st, t, g, b, pred, startInstr+off)
+					return
+				}
+				ex.step(st, in)
+				ex.ghostAt(st, in)
 			case *ssa.Phi:
 				ex.copyValue(st, t, t.Edges[predIdx])
 			case *ssa.If:
@@ -692,6 +677,10 @@ func (ex *Exec) walk(st *State, b *ssa.BasicBlock, pred *ssa.BasicBlock) {
 			case *ssa.Jump:
 				next = b.Succs[0]
 			case *ssa.Return:
+				if st.inl != nil {
+					ex.leaveInline(st, t)
+					return
+				}
 				ex.atReturn(st, t)
 				ex.finishPath(st, "return")
 				return
@@ -1044,14 +1033,18 @@ func (ex *Exec) ghostAt(st *State, in ssa.Instruction) {
 	default:
 		return
 	}
-	ex.assertsAt(st, anchor, in.Pos())
-	alt := ex.nameAnchor[in]
+	alt := ex.anchorOf(st, in)
+	if st.inl != nil {
+		anchor = "" // ordinal anchors name instructions of the function itself, not of an inlined helper
+	} else {
+		ex.assertsAt(st, anchor, in.Pos())
+	}
 	if alt != "" {
 		ex.assertsAt(st, alt, in.Pos())
 	}
 	for _, c := range ex.cons[:ex.ownCons] {
 		for _, g := range c.GAt {
-			if g.Anchor != anchor && (alt == "" || g.Anchor != alt) {
+			if (anchor == "" || g.Anchor != anchor) && (alt == "" || g.Anchor != alt) {
 				continue
 			}
 			e := ex.envFor(st, c)
